@@ -111,6 +111,13 @@ def _T():
         {'op': 'add_field', 'model': 'B', 'name': 'fk2',
          'fdef': {'kind': 'ForeignKey', 'to': 'app1.A', 'null': True}},
         {'op': 'rename_model', 'old': 'C', 'new': 'D', 'db_table': 'app1_d'},
+        # ---- 30.. : a nullable column added with an initial value, a type
+        # change of it without one
+        {'op': 'add_field', 'model': 'A', 'name': 'f3',
+         'fdef': {'kind': 'Char', 'max_length': 10, 'null': True},
+         'initial': 'x'},
+        {'op': 'change_field', 'model': 'A', 'name': 'f3',
+         'attrs': {'null': True}, 'new_kind': 'Text'},
     ]
     for e in t:
         e['app'] = 'app1'
@@ -211,6 +218,8 @@ def applicable(spec, e):
         fd = S.get_field(spec, app, m, e['name'])
         if fd is None:
             return False
+        if e.get('new_kind'):
+            return fd['kind'] != e['new_kind']
         # only real changes (a no-op ChangeField is legal but uninteresting)
         return any(fd.get(k, False if k in ('null', 'db_index', 'unique')
                           else None) != v for k, v in e['attrs'].items())
